@@ -279,6 +279,31 @@ func genC10(c *Ctx) {
 		c.add("speccompact", hx(ns), joinHexList(txs))
 		c.add("speccompactix", hx(ns), joinHexList(txs))
 	}
+	// Go side only: very long units (>= 1 MiB, >= 2 MiB) whose length prefix ends at / straddles a share end,
+	// compared with the independent encoder
+	{
+		lists, _ := veryLongUnitLists(r)
+		for li, txs := range lists {
+			if c.tier == "quick" && li%3 != int(r.U64()%3) {
+				continue
+			}
+			ns := share.TxNamespace.Bytes()
+			if li%2 == 1 {
+				ns = share.PayForBlobNamespace.Bytes()
+			}
+			css := share.NewCompactShareSplitter(nsOf(ns), 0)
+			for _, t := range txs {
+				_ = css.WriteTx(t)
+			}
+			shs, err := css.Export()
+			wit := map[string]any{"ns": hx(ns), "tx_lens": lensOf(txs)}
+			if c.check(err == nil, "CompactShareSplitter.Export", "error", wit) {
+				ref, _ := refCompact(ns, txs)
+				c.check(eqShares(ref, shs), "CompactShareSplitter", "shares differ from the specified encoding", wit)
+			}
+			c.count("very_long_unit")
+		}
+	}
 	// crafted shares: all 256 info bytes x reserved-byte values x namespaces
 	craftNs := [][]byte{share.TxNamespace.Bytes(), share.PayForBlobNamespace.Bytes(), share.PrimaryReservedPaddingNamespace.Bytes(),
 		share.TailPaddingNamespace.Bytes(), share.ParitySharesNamespace.Bytes(), nss[0]}
@@ -579,14 +604,42 @@ func itemsShape(items []string) string {
 func genC09(c *Ctx) {
 	c.rule = "tx lists (1-12 txs; lengths from exact-fill, prefix-straddle, varint-width and random families) for both compact namespaces; written, counted, exported, parsed; non-trivial = distinct length list spanning more than one share"
 	r := c.rng
-	for i := 0; i < 400*c.scale; i++ {
+	nRandom := 400 * c.scale
+	// Go side only: single very long units on the varint-width boundaries 2^14 and 2^21 (and 2^20), alone and
+	// between small transactions, ending on / one byte past a share boundary
+	var big [][][]byte
+	for _, around := range []int{1 << 14, 1<<14 + 300, 1 << 20, 1<<21 - 1, 1 << 21, 1<<21 + 477, 1<<21 + 5000} {
+		var l [][]byte
+		prefix := 0
+		if r.Bool(60) {
+			t0 := r.Bytes(1 + r.Intn(300))
+			l = append(l, t0)
+			prefix = len(refDelimited(t0))
+		}
+		n := around
+		if around != 1<<21 && around != 1<<21-1 && around != 1<<14 {
+			n = alignedTxLen(prefix, around, r.Intn(2))
+		}
+		bigTx := make([]byte, n)
+		copy(bigTx, r.Bytes(64))
+		bigTx[n-1] = 0x5a
+		l = append(l, bigTx, r.Bytes(1+r.Intn(100)), r.Bytes(1+r.Intn(100)))
+		big = append(big, l)
+	}
+	for i := 0; i < nRandom+len(big); i++ {
 		ns := share.TxNamespace.Bytes()
 		if r.Bool(40) {
 			ns = share.PayForBlobNamespace.Bytes()
 		}
-		txs := compactTxList(c, r, 1+r.Intn(12))
-		c.add("compactrt", hx(ns), joinHexList(txs))
-		if i%4 == 0 {
+		var txs [][]byte
+		if i < nRandom {
+			txs = compactTxList(c, r, 1+r.Intn(12))
+			c.add("compactrt", hx(ns), joinHexList(txs))
+		} else {
+			txs = big[i-nRandom]
+			c.count("very_long_unit")
+		}
+		if i < nRandom && i%4 == 0 {
 			// per-write counts and the exported bytes
 			ops := make([]string, 0, 2*len(txs)+1)
 			for _, t := range txs {
@@ -627,6 +680,31 @@ func genC09(c *Ctx) {
 	}
 }
 
+// veryLongUnitLists (Go side only): a transaction of >= 1 MiB (and one of >= 2 MiB) whose length prefix
+// starts 1, 2 or 3 bytes before a share end (so the prefix ends exactly at the boundary or straddles it),
+// preceded and followed by small transactions.  Returns the lists and, per list, the index of the long one.
+func veryLongUnitLists(r *Rng) ([][][]byte, []int) {
+	var lists [][][]byte
+	var pos []int
+	for _, size := range []int{1 << 20, 1<<20 + 12345, 1<<21 + 3} {
+		for back := 1; back <= 3; back++ {
+			lead := 474 - back // stream bytes before the long unit
+			first := r.Bytes(lead - 2)
+			if lead-2 < 128 {
+				first = r.Bytes(lead - 1)
+			}
+			long := make([]byte, size)
+			for j := 0; j < len(long); j += 997 {
+				long[j] = byte(1 + j%5) // delimiter look-alikes sprinkled through the body
+			}
+			long[0], long[1], long[2] = 0xaa, 0xbb, 0x02
+			lists = append(lists, [][]byte{first, long, r.Bytes(1 + r.Intn(50))})
+			pos = append(pos, 1)
+		}
+	}
+	return lists, pos
+}
+
 // ---- C11 ----
 
 // expectedSubrange: the transactions that begin inside shares [lo,hi) and are complete within them.
@@ -664,6 +742,45 @@ func genC11(c *Ctx) {
 		{r.Bytes(470), r.Bytes(32769), r.Bytes(5)},                                    // same family, longer
 		{r.Bytes(470), r.Bytes(16386)},                                                // truncated prefix decodes to a small length
 		{r.Bytes(30), bytes.Repeat([]byte{1, 0x80, 2}, 900), r.Bytes(30), r.Bytes(3)}, // a tx covering 5+ shares of delimiter look-alikes
+	}
+	// Go side only: very long units with the length prefix at a share end; sub-ranges around it
+	{
+		lists, pos := veryLongUnitLists(r)
+		for li, txs := range lists {
+			if c.tier == "quick" && li%3 != int(r.U64()%3) {
+				continue
+			}
+			css := share.NewCompactShareSplitter(share.TxNamespace, 0)
+			for _, t := range txs {
+				_ = css.WriteTx(t)
+			}
+			shs, err := css.Export()
+			if !c.check(err == nil && len(shs) > 2000, "CompactShareSplitter.Export", "error on a very long transaction", map[string]any{"tx_lens": lensOf(txs)}) {
+				continue
+			}
+			n := len(shs)
+			_ = pos
+			for _, lo := range []int{0, 1, 2, 3, n / 2, n - 2} {
+				for _, hi := range []int{lo + 1, lo + 2, lo + 3, n} {
+					if lo < 0 || hi > n || hi <= lo {
+						continue
+					}
+					got, err := share.ParseTxs(shs[lo:hi])
+					want := expectedSubrange(txs, n, lo, hi)
+					same := err == nil && len(got) == len(want)
+					if same {
+						for j := range want {
+							if !bytes.Equal(got[j], want[j]) {
+								same = false
+							}
+						}
+					}
+					c.check(same, "ParseTxs(sub-range)", "result differs from the transactions that begin in the range and are complete in it",
+						map[string]any{"tx_lens": lensOf(txs), "lo": lo, "hi": hi, "shares": n})
+				}
+			}
+			c.count("very_long_unit")
+		}
 	}
 	for i := 0; i < nseq+len(corpus); i++ {
 		ns := share.TxNamespace.Bytes()
